@@ -170,6 +170,7 @@ def run(ctx):
         if parse_obs[j][1:] != exp:
             ctx.oracle_fail("parse_msg reads an accepted datagram differently from the TRXD layout", dict(kind=kind, octets=d),
                             key="c04-layout-parse:" + kind, expected=exp[:24], observed=parse_obs[j][1:25])
+    U.reuse_check(ctx, dgrams, parse_obs, "c04-parse-history")
     # ================================================================ Python -> C: the real trx_data_rx_cb on those octets
     rxd = [(d, k) for kind, d, k in dgrams if kind == "rx"]
     adv = [rng.choice([0, 1, 20, H - 1, H, 2 ** 32 - 1]) for _ in rxd]
@@ -226,6 +227,7 @@ def run(ctx):
     ctx.correspond("TxMsg.parse_msg(trxcon octets)", "Trxd", [j for j, _ in sent],
                    lambda j: "w_trxd_tx_parse " + " ".join(map(str, tobs[j]["sent"][0])), lambda j: back[j],
                    show=lambda j: dict(tn=reqs[j][0], fn=reqs[j][1], pwr=reqs[j][2], burst_len=len(reqs[j][3])))
+    U.reuse_check(ctx, [("tx", octets) for j, octets in sent], [back[j] for j, _ in sent], "c04-parse-history")
     for j, (tn, fn, pwr, bits) in enumerate(reqs):
         o = tobs[j]
         ctx.nontrivial(("c2py", len(bits) if len(bits) in (0, 148, 444) else ("short" if len(bits) < 148 else "mid" if len(bits) < 444 else "long" if len(bits) <= 506 else "overflow"),
